@@ -5,6 +5,7 @@ import (
 	"encoding/json"
 	"fmt"
 	"math/rand"
+	"strings"
 	"sync"
 	"time"
 
@@ -63,9 +64,17 @@ func (s *c18Srv) handle(srv *refpeer.Server, sc *refpeer.SrvConn, m *refpeer.Msg
 	var act string
 	var send func()
 	switch {
-	case x < 70:
+	case x < 55:
 		act = "answer"
 		send = func() { sc.Reply(m, good) }
+	case x < 70:
+		// answer around the moment an impatient caller gives up (their contexts end after 15-60 ms)
+		act = "answer-near-caller-deadline"
+		d := time.Duration(8+s.r.Intn(60)) * time.Millisecond
+		s.actions[act]++
+		s.mu.Unlock()
+		go func() { time.Sleep(d); sc.Reply(m, good) }()
+		return
 	case x < 76:
 		act = "drop"
 	case x < 84:
@@ -164,6 +173,32 @@ func c18One(c *fw.Ctx, run c18Run, r *rand.Rand) {
 	go st.flushLoop(stop)
 	defer close(stop)
 
+	var hmu sync.Mutex
+	hr := rand.New(rand.NewSource(r.Int63()))
+	hits := map[string]int64{}
+	uasc.VerifSetHook(func(point string) {
+		hmu.Lock()
+		hits[point]++
+		var d time.Duration
+		switch point {
+		case "sc.disp.afterPop", "sc.ctx.done", "sc.timeout.fired":
+			if hr.Intn(3) == 0 {
+				d = time.Duration(100+hr.Intn(2500)) * time.Microsecond
+			}
+		}
+		hmu.Unlock()
+		if d > 0 {
+			time.Sleep(d)
+		}
+	})
+	defer func() {
+		uasc.VerifSetHook(nil)
+		hmu.Lock()
+		for p, n := range hits {
+			c.Class("hook:"+p, n)
+		}
+		hmu.Unlock()
+	}()
 	ctx, cancel := context.WithTimeout(context.Background(), 60*time.Second)
 	defer cancel()
 	var rd reader
@@ -213,7 +248,12 @@ func c18One(c *fw.Ctx, run c18Run, r *rand.Rand) {
 			defer wg.Done()
 			for k := 0; k < run.PerCall; k++ {
 				nonce := fmt.Sprintf("n-%d-%d-%d", run.RunIndex, g, k)
-				res, err := rd.read(ctx, nonce)
+				cctx, ccancel := ctx, context.CancelFunc(func() {})
+				if (g+k)%2 == 1 { // impatient caller: gives up after 15-60 ms and immediately issues its next request
+					cctx, ccancel = context.WithTimeout(ctx, time.Duration(15+(g*7+k*13)%46)*time.Millisecond)
+				}
+				res, err := rd.read(cctx, nonce)
+				ccancel()
 				out := result{nonce: nonce, err: err}
 				if err == nil {
 					if res == nil || len(res.Results) != 1 || res.Results[0].Value == nil {
@@ -236,6 +276,9 @@ func c18One(c *fw.Ctx, run c18Run, r *rand.Rand) {
 		c.Eval(1)
 		if res.err != nil {
 			failed++
+			if strings.Contains(res.err.Error(), "duplicate handler registration") {
+				c.Violation("c18:request-id-reused-while-pending:"+run.Layer, fmt.Sprintf("the call for %s was given the request id of a request that is still pending: %v", res.nonce, res.err), run)
+			}
 			continue
 		}
 		ok++
@@ -267,14 +310,14 @@ func c18One(c *fw.Ctx, run c18Run, r *rand.Rand) {
 }
 
 func c18RunAll(c *fw.Ctx) error {
-	n := int64(c.Pick(16, 1200))
+	n := int64(c.Pick(32, 2400))
 	for i := int64(0); i < n; i++ {
 		if int(i%int64(c.NBatch)) != c.Batch || i < c.Resume {
 			continue
 		}
 		r := c.Rng("c18", i)
 		run := c18Run{Layer: []string{"client", "uasc"}[int(i/int64(c.NBatch))%2], Callers: []int{1, 2, 4, 8, 16, 32, 64}[r.Intn(7)], RunIndex: i,
-			Window: 1 + r.Intn(12), Seed: []uint32{0, 1, 0xffffffff - uint32(r.Intn(200)), r.Uint32()}[r.Intn(4)]}
+			Window: 1 + r.Intn(12), Seed: []uint32{0, 0xffffffff - uint32(r.Intn(40)), 0xffffffff - uint32(r.Intn(200)), r.Uint32()}[r.Intn(4)]}
 		run.PerCall = 240 / run.Callers
 		if run.PerCall < 4 {
 			run.PerCall = 4
@@ -293,7 +336,7 @@ func init() {
 	fw.Register("C18", fw.Spec{
 		Plan: func(tier string) fw.Plan {
 			p := fw.Plan{Batches: 8, TimeoutS: 600, MinNontrivial: 8, Level: "exploration",
-				Rule:        "runs of 1..64 concurrent callers issuing Reads with unique nonces over one channel (opcua.Client and bare uasc.SecureChannel with request-id seeds incl. just below 2^32) against the scripted refpeer server, which answers in random permutation windows, drops, duplicates, sends unsolicited request ids, ServiceFaults and wrong-typed responses but always binds a nonce to its own request id; oracle: exactly-once matching over the call/return log (a successful call returns its own nonce, no nonce is returned twice, wrong-typed responses are errors); a run is non-trivial if it had both successful and failed calls; evaluations = calls",
+				Rule:        "runs of 1..64 concurrent callers issuing Reads with unique nonces over one channel (opcua.Client and bare uasc.SecureChannel with request-id seeds incl. just below 2^32) against the scripted refpeer server, which answers in random permutation windows, drops, duplicates, sends unsolicited request ids, ServiceFaults and wrong-typed responses and answers around the moment impatient callers (every second call has a 15-60 ms context) give up, but always binds a nonce to its own request id; the verif hook points sc.disp.afterPop / sc.ctx.done / sc.timeout.fired delay the dispatcher and the abandoning caller by 0.1-2.6 ms in a third of the cases to widen the hand-over window; oracle: exactly-once matching over the call/return log (a successful call returns its own nonce, no nonce is returned twice, wrong-typed responses are errors, no call is given the request id of a pending request); a run is non-trivial if it had both successful and failed calls; evaluations = calls",
 				Assumptions: []string{"the scripted server never lies about which request a response belongs to"}}
 			if tier == "thorough" {
 				p.Batches, p.TimeoutS, p.MinNontrivial = 16, 3000, 300
